@@ -91,6 +91,9 @@ class C05(Prop):
                     m = mm
                     lines.append(ln)
                 metas.append(m)
+        # another CRC16<> instantiation (m17-demod's packet CRC polynomial) is used first in the same process: the decoder's M17 CRC gate
+        # must not depend on it
+        lines.insert(0, "crc_other 0 49 50 51 52 53 54 55 56 57"); metas.insert(0, None)
         impl = ctx.run_impl(exe, lines, "dec-lich")
         nlsf = deccheck.lsf_crc_oracle(ctx, lines, metas, impl, self.pid)
         ctx.stat("lsf-callbacks", nlsf)
